@@ -55,6 +55,12 @@ def run(chk):
         # ---- training: marginal likelihood never decreases; floor respected; finite
         upd = (i % 4 in (1, 2))
         floor = r.choice([1e-10, 1e-10, 0.3 * float(np.min(ubm.variances))])
+        if upd and i % 2 == 0:
+            # make the floor bind: above the smallest covariance an unfloored first iteration produces
+            probe = iv.fit_machine(ubm, stats, t, 1, True, 1e-300, r.randint(0, 10 ** 6) if False else 1)
+            sig1 = np.asarray(probe.sigma)
+            if np.all(np.isfinite(sig1)) and np.all(sig1 > 0):
+                floor = float(np.median(sig1))
         seed = r.randint(0, 10 ** 6)
         K = r.choice([1, 2, 4])
         T0 = iv.t0_of(seed, C, D, t)
@@ -69,6 +75,12 @@ def run(chk):
                 break
             if upd and not np.all(np.asarray(mk.sigma) >= floor):
                 chk.fail("updated covariances fall below the configured floor %g" % floor, dict(ctx, update_sigma=upd, floor=floor, seed=seed))
+            if upd and k == 1:
+                # the floored covariances are max(floor, unfloored update) entry by entry
+                free = iv.fit_machine(ubm, stats, t, 1, True, 1e-300, seed)
+                want = np.maximum(floor, np.asarray(free.sigma))
+                if np.all(np.isfinite(want)) and not np.allclose(np.asarray(mk.sigma), want, rtol=1e-9, atol=0):
+                    chk.fail("first-iteration covariances are not max(floor, unfloored update)", dict(ctx, update_sigma=upd, floor=floor, seed=seed))
             floor_active = bool(upd and np.any(np.asarray(mk.sigma) <= floor))
             L = iv.marginal(np.asarray(ubm.means), np.asarray(mk.T), np.asarray(mk.sigma), stats)
             traj.append(L)
